@@ -47,7 +47,7 @@ Definition sset (l : list string) : gset string := list_to_set l.
 Definition bb_insts (bbs : list bbdef) (m : vmodule) : list (string * bbdef * list (string * option cond)) :=
   m_items m ≫= (λ it, match it with
     | IInst mn insts =>
-        match prim_of_name mn, last (filter (λ d, bb_name d = mn) bbs) with
+        match prim_of_name mn, find_def bbs mn with
         | None, Some d => insts ≫= (λ ic, match ic.2 with Named ps => [(ic.1, d, ps)] | _ => [] end)
         | _, _ => [] end
     | _ => [] end).
@@ -67,7 +67,7 @@ Definition inst_ok (bbs : list bbdef) (mn : string) (ic : string * conns) : bool
           (if bool_decide (t = Buf) || bool_decide (t = Not) then bool_decide (length ins = 1) else negb (bool_decide (ins = [])))
       | _ => false end
   | None =>
-      match last (filter (λ d, bb_name d = mn) bbs), ic.2 with
+      match find_def bbs mn, ic.2 with
       | Some d, Named ps =>
           bool_decide (NoDup ps.*1) && negb (bool_decide (ps = [])) &&
           forallb (λ pc : string * option cond,
@@ -91,8 +91,8 @@ Definition in_subset (bbs : list bbdef) (m : vmodule) : bool :=
                           | IInput l | IOutput l | IWire l => negb (bool_decide (l = [])) end) (m_items m) &&
   bool_decide (NoDup ((bb_insts bbs m).*1.*1)) &&
   (* one driver per net, inputs undriven *)
-  bool_decide (NoDup (((drivers m).*1 ++ (bbout_nets bbs m).*2)%list)) &&
-  bool_decide (sset (((drivers m).*1 ++ (bbout_nets bbs m).*2)%list) ## sset (decl_inputs m)) &&
+  bool_decide (NoDup (module_defs bbs m)) &&
+  forallb (λ n, bool_decide (n ∉ sset (decl_inputs m))) (module_defs bbs m) &&
   (* every output is a net of some statement *)
   bool_decide (sset (decl_outputs m) ⊆ sset (used_nets m)) &&
   (* nets are not named like pin nodes *)
